@@ -78,16 +78,21 @@ func init() {
 		Assumptions: commonAssumptions,
 	}
 	registry["C17"] = &Property{
-		Quick:    []HarnessSpec{{Name: "VC17_GUID", NeedReach: []string{"end"}}, {Name: "VC17_GUIDCompare", NeedReach: []string{"end"}}},
-		Bounds:   []string{"GUID: none — all 2^128 values are one symbolic run (four symbolic fields)"},
-		Outside:  []string{},
+		Quick: []HarnessSpec{{Name: "VC17_GUID", NeedReach: []string{"end"}}, {Name: "VC17_GUIDCompare", NeedReach: []string{"end"}},
+			{Name: "VC17_UTF16", Params: map[string]int{"vsymC17Runes": 3}, MaxDecisions: 2000, NeedReach: []string{"end"}}},
+		Thorough: []HarnessSpec{{Name: "VC17_GUID", NeedReach: []string{"end"}}, {Name: "VC17_GUIDCompare", NeedReach: []string{"end"}},
+			{Name: "VC17_UTF16", Params: map[string]int{"vsymC17Runes": 4}, MaxDecisions: 4000, MaxPaths: 2000000, TimeoutSec: 1800, NeedReach: []string{"end"}}},
+		Bounds: []string{"GUID: none — all 2^128 values are one symbolic run (four symbolic fields)",
+			"UTF-16: strings of 0..3 (quick) / 0..4 symbolic code points (any scalar value except NUL: BMP, non-BMP surrogate pairs, U+FEFF/U+FFFE included); golang.org/x/text is interpreted from source"},
+		Outside:     []string{"strings longer than the bound, in particular the 4096-byte transform buffer boundary"},
 		Assumptions: commonAssumptions,
 	}
 	registry["C18"] = &Property{
-		Quick:    []HarnessSpec{{Name: "VC18_BootOrderNames", Params: map[string]int{"vsymC18Entries": 3}, NeedReach: []string{"end"}}},
-		Thorough: []HarnessSpec{{Name: "VC18_BootOrderNames", Params: map[string]int{"vsymC18Entries": 8}, NeedReach: []string{"end"}}},
-		Bounds:   []string{"boot order of 0..3 (quick) / 0..8 entries, all 65 536 values of every entry symbolic"},
-		Outside:  []string{"longer boot orders (entries are decoded independently)"},
+		Quick:    []HarnessSpec{{Name: "VC18_BootOrderNames", Params: map[string]int{"vsymC18Entries": 3}, NeedReach: []string{"end"}}, {Name: "VC18_LoadOption", NeedReach: []string{"end"}}},
+		Thorough: []HarnessSpec{{Name: "VC18_BootOrderNames", Params: map[string]int{"vsymC18Entries": 8}, NeedReach: []string{"end"}}, {Name: "VC18_LoadOption", NeedReach: []string{"end"}}},
+		Bounds: []string{"boot order of 0..3 (quick) / 0..8 entries, all 65 536 values of every entry symbolic",
+			"load option from a reference encoder: symbolic attributes, 2-character ASCII description, one node of each supported kind in a fixed order (PCI, ACPI, hard drive MBR/GPT with signature type 1/2, USB, firmware file, file path of 2 characters, end) with symbolic field values; partition number 1..99, start/size below 2^16 (bounds the hex rendering forks); text forms of the hard-drive and file-path nodes compared byte for byte"},
+		Outside: []string{"longer boot orders (entries are decoded independently)", "other node orders and repeated nodes, descriptions and paths longer than 2 characters, partition start/size of 2^16 and more", "resolution of names through the boot-entry accessor (GetBootEntry opens <efivars>/<name>-<guid>: covered by C11's path assertion for arbitrary names)"},
 		Assumptions: commonAssumptions,
 	}
 	c14 := func(name string, max int, extra map[string]int) HarnessSpec {
